@@ -138,142 +138,6 @@ func c35FlagCut(fn *ssa.Function, from ssa.Instruction) an.EdgeSet {
 	return cut
 }
 
-// c35Walk is a CFG reachability query that is sensitive to the value a phi
-// takes on the edge a block is entered through: when a block ends in `If c`
-// and c is (a negation of) a phi of that very block, the walk evaluates c for
-// the incoming edge. A constant selects the single feasible branch, any other
-// value is handed to valCut, which may declare one outcome of that value as
-// "not to be followed" (the same callback is applied to conditions that are
-// not phis). Materialised short-circuit conditions (x := a || b; if x ...) are
-// thereby treated like the direct form (if a || b ...).
-type c35Walk struct {
-	fn      *ssa.Function
-	cut     an.EdgeSet
-	blocked map[ssa.Instruction]bool
-	valCut  func(v ssa.Value, outcome bool) bool
-}
-
-func (w *c35Walk) branches(b *ssa.BasicBlock, pred int) []int {
-	var out []int
-	ifi, isIf := b.Instrs[len(b.Instrs)-1].(*ssa.If)
-	known, kval := false, false
-	var cutT, cutF bool
-	if isIf {
-		v := ifi.Cond
-		neg := false
-		for i := 0; i < 8; i++ {
-			if u, ok := v.(*ssa.UnOp); ok && u.Op == token.NOT {
-				neg = !neg
-				v = u.X
-				continue
-			}
-			if ph, ok := v.(*ssa.Phi); ok && ph.Block() == b && pred >= 0 && pred < len(ph.Edges) {
-				v = ph.Edges[pred]
-				continue
-			}
-			break
-		}
-		if k, ok := v.(*ssa.Const); ok && k.Value != nil && k.Value.Kind() == constant.Bool {
-			known, kval = true, constant.BoolVal(k.Value) != neg
-		} else if w.valCut != nil {
-			// outcome of v that corresponds to the true branch is !neg
-			cutT = w.valCut(v, !neg)
-			cutF = w.valCut(v, neg)
-		}
-	}
-	for si := range b.Succs {
-		if w.cut[an.Edge{From: b, Succ: si}] {
-			continue
-		}
-		if isIf {
-			if known && ((si == 0) != kval) {
-				continue
-			}
-			if (si == 0 && cutT) || (si == 1 && cutF) {
-				continue
-			}
-		}
-		out = append(out, si)
-	}
-	return out
-}
-
-// reaches: can execution go from just after `from` (nil = entry) to an
-// instruction satisfying target?
-func (w *c35Walk) reaches(from ssa.Instruction, target func(ssa.Instruction) bool) bool {
-	type state struct {
-		b    *ssa.BasicBlock
-		pred int
-	}
-	seen := map[state]bool{}
-	var scan func(b *ssa.BasicBlock, pred, start int) bool
-	scan = func(b *ssa.BasicBlock, pred, start int) bool {
-		for i := start; i < len(b.Instrs); i++ {
-			in := b.Instrs[i]
-			if target(in) {
-				return true
-			}
-			if w.blocked[in] {
-				return false
-			}
-		}
-		for _, si := range w.branches(b, pred) {
-			s := b.Succs[si]
-			// index of b among s.Preds (first matching edge not yet used for this si)
-			pi := -1
-			n := 0
-			for k, q := range s.Preds {
-				if q == b {
-					// the n-th occurrence of b in s.Preds corresponds to the n-th edge b->s
-					m := 0
-					for sj := 0; sj < si; sj++ {
-						if b.Succs[sj] == s {
-							m++
-						}
-					}
-					if n == m {
-						pi = k
-					}
-					n++
-				}
-			}
-			st := state{s, pi}
-			if seen[st] {
-				continue
-			}
-			seen[st] = true
-			if scan(s, pi, 0) {
-				return true
-			}
-		}
-		return false
-	}
-	if from == nil {
-		if len(w.fn.Blocks) == 0 {
-			return false
-		}
-		seen[state{w.fn.Blocks[0], -1}] = true
-		return scan(w.fn.Blocks[0], -1, 0)
-	}
-	b := from.Block()
-	for i, in := range b.Instrs {
-		if in == from {
-			return scan(b, -1, i+1)
-		}
-	}
-	return false
-}
-
-func (w *c35Walk) reachesReturn(from ssa.Instruction) bool {
-	return w.reaches(from, func(in ssa.Instruction) bool { _, ok := in.(*ssa.Return); return ok && in != from })
-}
-
-// c35BoolIs: valCut callback "value v is one of vals (or vals[i] == const) and has the given outcome".
-func c35BoolIs(vals []ssa.Value, want bool) func(ssa.Value, bool) bool {
-	set := an.Aliases(vals...)
-	return func(v ssa.Value, outcome bool) bool { return set[v] && outcome == want }
-}
-
 // c35Callers maps every function of the package to the functions that call it
 // synchronously (call/defer) and to the go statements that spawn it.
 type c35CG struct {
@@ -504,8 +368,8 @@ func runC35(c *an.Ctx) {
 				blocked[call.(ssa.Instruction)] = true
 			}
 		}
-		w := &c35Walk{fn: fn, cut: an.BoolEdges(fn, tv, !outcome), blocked: blocked, valCut: c35BoolIs(tv, !outcome)}
-		return len(blocked) > 0 && !w.reachesReturn(test.(ssa.Instruction))
+		w := &an.Walk{Fn: fn, Cut: an.BoolEdges(fn, tv, !outcome), Blocked: blocked, ValCut: an.BoolIs(tv, !outcome)}
+		return len(blocked) > 0 && !w.ReachesReturn(test.(ssa.Instruction))
 	}
 	// ------------------------------------------------------------ O2 cancel decision
 	nO2 := 0
@@ -528,8 +392,8 @@ func runC35(c *an.Ctx) {
 				hasOn[l] = append(hasOn[l], h)
 			}
 			sentTrue := an.BoolEdges(fn, hasVals, true)
-			wSent := &c35Walk{fn: fn, cut: sentTrue, valCut: c35BoolIs(hasVals, true)}
-			c.Check(len(hasVals) > 0 && !wSent.reaches(nil, func(in ssa.Instruction) bool { return in == add.(ssa.Instruction) }), "O2", "R-DOM", name, "cancels.Add<=sent.Has", add.Pos(),
+			wSent := &an.Walk{Fn: fn, Cut: sentTrue, ValCut: an.BoolIs(hasVals, true)}
+			c.Check(len(hasVals) > 0 && !wSent.Reaches(nil, func(in ssa.Instruction) bool { return in == add.(ssa.Instruction) }), "O2", "R-DOM", name, "cancels.Add<=sent.Has", add.Pos(),
 				"a cancel is queued only where a want for the CID was recorded as sent",
 				"cancels.Add(c) is reachable without a true sent.Has(c) test: cancels are queued for wants the peer never received (or the decision no longer looks at the sent lists)")
 			for _, l := range recallFields {
@@ -553,7 +417,7 @@ func runC35(c *an.Ctx) {
 							okOrder = false
 						}
 					}
-					if !wSent.reaches(nil, func(in ssa.Instruction) bool { return in == r.(ssa.Instruction) }) {
+					if !wSent.Reaches(nil, func(in ssa.Instruction) bool { return in == r.(ssa.Instruction) }) {
 						okUncond = false
 					}
 				}
@@ -933,7 +797,7 @@ func runC35(c *an.Ctx) {
 					okArgs = true
 				}
 			}
-			last := func(v ssa.Value) string { s, _ := c34LastComp(v); return s }
+			last := func(v ssa.Value) string { s, _ := an.LastComp(v); return s }
 			aa := an.Args(call)
 			okArgs = okArgs && last(aa[0]) == "Cid" && last(aa[1]) == "Priority" && last(aa[2]) == "WantType"
 			c.Check(len(rt) > 0 && an.GuardedBy(ms, nil, call.(ssa.Instruction), an.BoolEdges(ms, vals, true)) && okArgs, "O5", "R-DOM", an.FuncName(ms), "sent.Add<=pending.RemoveType-true", call.Pos(),
